@@ -703,6 +703,10 @@ pub fn e2_spec(id: &str, tier: &str) -> Option<crate::e2::E2Spec> {
             // monitor; only memory verdicts are reported here
             let mut scens = Vec::new();
             for id in ["C16", "C17", "C18", "C24", "C08"] {
+                if quick && id == "C16" {
+                    // (C17's scenarios are C16's plus a second revision)
+                    continue;
+                }
                 if let Some(sp) = e2_spec(id, "quick") {
                     let stride = if !quick { 1 } else if id == "C16" || id == "C17" { 8 } else if id == "C08" || id == "C18" { 3 } else { 1 };
                     for (i, mut sc) in sp.scens.into_iter().enumerate() {
@@ -1028,12 +1032,12 @@ fn c23_borrowed(tier: &str) -> Vec<crate::e1mem::Borrowed> {
         if let Some(mut spec) = e1_spec(id, "quick") {
             if quick {
                 // every third program of the larger sets, and the depth reduced until the set has
-                // at most ~40 000 histories (the whole quick tier then completes without a cap)
+                // at most ~25 000 histories (the whole quick tier then completes without a cap)
                 if spec.programs.len() > 12 {
                     spec.programs = spec.programs.into_iter().enumerate().filter(|(i, _)| i % 3 == 0).map(|(_, p)| p).collect();
                 }
                 let size = |d: usize, spec: &Spec| -> f64 { spec.programs.iter().map(|p| ((spec.alphabet)(p).len() as f64).powi(d as i32)).sum() };
-                while spec.depth > 2 && size(spec.depth, &spec) > 40_000.0 {
+                while spec.depth > 2 && size(spec.depth, &spec) > 25_000.0 {
                     spec.depth -= 1;
                 }
                 if faults {
